@@ -300,6 +300,13 @@ func seqArgs(e Ev, sz int, op string) (pos, n int, vals []interface{}) {
 	}
 	switch op {
 	case "ins":
+		if len(vals) == 0 && e.B > 0 {
+			// wide batch: B values named by their index (kept out of the plan file)
+			vals = make([]interface{}, e.B)
+			for i := range vals {
+				vals[i] = float64(i)
+			}
+		}
 		return mod(e.A, sz+1), 0, vals
 	case "del", "getmany":
 		if sz == 0 {
@@ -340,6 +347,11 @@ func (r *run) trList(p *replica, a api, e Ev) *call {
 		ok := pos >= 0 && pos <= sz && !anyNil(vals)
 		c := &call{name: fmt.Sprintf("InsertMany(%d,%s)", pos, kernel.Canon(vals)), valid: ok && len(vals) > 0, unspec: ok && len(vals) == 0}
 		c.tagKind, c.tagPos, c.tagVals = "ins", pos, vals
+		if len(vals) > 1<<16 {
+			r.probe("batch>2^16")
+		} else if len(vals) > 1<<15 {
+			r.probe("batch>2^15")
+		}
 		if ok {
 			anchor := ref.Head
 			if pos > 0 {
